@@ -609,16 +609,26 @@ def build_reviewed(run, prog):
     out[("decoders.codec.*", "method", ".decode('utf-16')")] = ("every match is a sequence of (byte, NUL) pairs: valid UTF-16LE without surrogates or BOM",
                                                                 utf16_only_matches)
 
-    def c10_dom(key_sub):
+    c10_run = []
+
+    def c10_dom(*key_subs):
         def cond():
             from . import C10
-            sub = core.Run("C10", "quick", prog)
-            C10.check(sub)
-            obs = [o for o in sub.obligations if key_sub in o["key"]]
-            return bool(obs) and all(o["ok"] for o in obs), f"C10 obligation '{key_sub}' holds (validator dominance re-checked)"
+            if not c10_run:
+                sub = core.Run("C10", "quick", prog)
+                C10.check(sub)
+                c10_run.append(sub)
+            sub = c10_run[0]
+            for key_sub in key_subs:
+                obs = [o for o in sub.obligations if key_sub in o["key"]]
+                if not obs or not all(o["ok"] for o in obs):
+                    return False, f"C10 obligation '{key_sub}' does not hold"
+            return True, f"C10 obligations {list(key_subs)} hold (the validator dominates the call AND accepts only what the parser accepts)"
         return cond
-    out[("decoders.network.find_urls", "call", "parse_url(")] = ("is_url accepted the very text that parse_url splits, so urlsplit cannot raise", c10_dom("find_urls/network.url-node"))
-    out[("decoders.network.find_ips", "call", "parse_ip(")] = ("is_ip accepted the text, so inet_aton / IPv4Address accept it", c10_dom("is_ip-dominates-parse_ip"))
+    out[("decoders.network.find_urls", "call", "parse_url(")] = ("is_url accepted the very text that parse_url splits, so urlsplit cannot raise",
+                                                                 c10_dom("find_urls/network.url-node", "decoders.network.is_url/formula"))
+    out[("decoders.network.find_ips", "call", "parse_ip(")] = ("is_ip accepted the text, so inet_aton / IPv4Address accept it",
+                                                               c10_dom("is_ip-dominates-parse_ip", "decoders.network.is_ip/formula"))
 
     def c20_encoder():
         from . import C20
